@@ -37,6 +37,10 @@ AddressList::parse_address_normal(const Object::list_type& b) {
     if (port <= 0 || port >= (1 << 16))
       continue;
 
+    // inet_pton stops at the first NUL, do not accept trailing garbage.
+    if (addr.find('\0') != std::string::npos)
+      continue;
+
     sa_inet_union sa{};
 
     if (inet_pton(AF_INET, addr.c_str(), &sa.inet.sin_addr)) {
